@@ -1,4 +1,5 @@
 From Coq Require Import Extraction ExtrOcamlBasic.
-From IV Require Import Base.Bytes Model.Hub.
+From IV Require Import Base.Bytes Model.Hub Model.HubFed.
 Extraction Language OCaml.
-Extraction "c15_model.ml" conv_anchor drive_pinned oracle_pinned pinned_cfg expected strip spec_history.
+Extraction "c15_model.ml" conv_anchor drive_pinned oracle_pinned pinned_cfg expected strip spec_history
+  fed_drive_pinned asm_first asm_late.
